@@ -265,6 +265,7 @@ def layer_l(ck, tier):
                 q.pop()
             q.pop()
     ck.add_queries("z3", q.n, q.secs)
+    q.report(ck, "layout law")
     ck.states += q.n
     return model, found, q
 
